@@ -356,7 +356,12 @@ func Script(name string) [][]string {
 			case 3:
 				out = append(out, []string{"rpush", k("l"), fmt.Sprintf("e%d", i)})
 			case 4:
-				out = append(out, []string{"sadd", k("s"), fmt.Sprintf("m%d", i)})
+				if i%16 == 4 {
+					// a type whose writes sit in a write-back cache until a checkpoint flushes them
+					out = append(out, []string{"pfadd", k("p"), fmt.Sprintf("e%d", i)})
+				} else {
+					out = append(out, []string{"sadd", k("s"), fmt.Sprintf("m%d", i)})
+				}
 			case 5:
 				out = append(out, []string{"zadd", k("z"), strconv.Itoa(i), fmt.Sprintf("m%d", i%4)})
 			case 6:
@@ -390,7 +395,7 @@ func Script(name string) [][]string {
 var dumpReads = func() [][]string {
 	k := func(s string) string { return NS + ":t:" + s }
 	return [][]string{{"get", k("cnt")}, {"get", k("kv")}, {"get", k("log")}, {"hgetall", k("h")}, {"hlen", k("h")}, {"lrange", k("l"), "0", "-1"}, {"llen", k("l")},
-		{"smembers", k("s")}, {"scard", k("s")}, {"zrange", k("z"), "0", "-1", "withscores"}, {"zcard", k("z")},
+		{"smembers", k("s")}, {"scard", k("s")}, {"pfcount", k("p")}, {"zrange", k("z"), "0", "-1", "withscores"}, {"zcard", k("z")},
 		{"advscan", NS + ":t:", "kv", "count", "100"}, {"advscan", NS + ":t:", "hash", "count", "100"}, {"advscan", NS + ":t:", "list", "count", "100"},
 		{"advscan", NS + ":t:", "set", "count", "100"}, {"advscan", NS + ":t:", "zset", "count", "100"}}
 }()
